@@ -118,7 +118,7 @@ def _values(rng, t, n):
 
 def cases(rng, tier):
     for gen in (int_cases, ext_cases, float_cases, smallest_cases, column_cases, interval32_cases, decimals_cases, reuse_cases,
-                strtable_cases, level_cases, params_cases, rewrite_cases, names_cases, encser_cases):
+                strtable_cases, level_cases, params_cases, rewrite_cases, names_cases, encser_cases, cont_cases):
         for c in gen(rng, tier):
             rt = c.get("rt")
             if rt and rt.get("enc") in ("rle", "delta", "pack", "bytes", "compress_int", "compress_float"):
@@ -233,6 +233,41 @@ def encser_cases(rng, tier):
     reads back as an equal encoding (directly and through msgpack), which decodes the same bytes to the same array."""
     for _ in range(14 if tier == "quick" else 120):
         yield {"kind": "encser", "rt": {"enc": "encser", "seed": rng.randint(0, 10 ** 9), "explicit": rng.random() < 0.5}}
+
+
+
+CONT_KEYS = ["a", "b", "_a", "__a", "x_y", "", "_", "atom_site"]
+
+
+def cont_cases(rng, tier):
+    """Histories on one BinaryCIFCategory / BinaryCIFBlock / BinaryCIFFile read from serialised content: access, replace, delete,
+    list, serialise, re-read — against the lazy-container model (C05_container_refines / _history)."""
+    for _ in range(25 if tier == "quick" else 250):
+        level = rng.choice(["category", "block", "file"])
+        keys = rng.sample(CONT_KEYS, rng.randint(0, 5))
+        if keys and rng.random() < 0.25:
+            keys.append(rng.choice(keys))                      # the same name twice in the file
+        items = [(k, "bad" if rng.random() < 0.15 else str(rng.randint(-9, 99))) for k in keys]
+        ops = [f"cont_init {level} " + (",".join(f"{_s(k)}:{v}" for k, v in items) if items else "_")]
+        for _ in range(rng.randint(2, 10)):
+            k = _s(rng.choice(CONT_KEYS))
+            r = rng.random()
+            if r < 0.3:
+                ops.append(f"cont_get {k}")
+            elif r < 0.5:
+                ops.append(f"cont_set {k} {rng.randint(-9, 99)}")
+            elif r < 0.62:
+                ops.append(f"cont_del {k}")
+            elif r < 0.7:
+                ops.append(f"cont_has {k}")
+            elif r < 0.8:
+                ops.append("cont_keys")
+            elif r < 0.92:
+                ops.append("cont_ser")
+            else:
+                ops.append("cont_reread")
+        ops += ["cont_ser", "cont_reread", "cont_keys"]
+        yield {"kind": "cont/" + level, "ops": ops, "rt": {"enc": "cont", "level": level}}
 
 
 
@@ -485,8 +520,13 @@ def run_impl(case):
     from biotite.structure.io.pdbx import encoding as E
 
     out = []
+    cont = None
     for op in case["ops"]:
         w = op.split()
+        if w[0].startswith("cont_"):
+            cont, line = _cont_op(cont, w)
+            out.append(line)
+            continue
         if w[0] == "rle_enc":
             t, n, xs = w[1], (None if w[2] == "-" else int(w[2])), _parse(w[3])
             out.append(_fmt(lambda: "ok " + _ints(E.RunLengthEncoding(src_size=n).encode(np.array(xs, dtype=NP[t])))))
@@ -606,6 +646,141 @@ def run_impl(case):
         else:
             out.append("bad-op")
     return out
+
+
+# ---- lazily deserialising containers: adapter -------------------------------------------------------------------------
+_CONT_LIST = {"category": "columns", "block": "categories", "file": "dataBlocks"}
+_CONT_NAME = {"category": "name", "block": "name", "file": "header"}
+
+
+def _cont_classes(level):
+    from biotite.structure.io.pdbx import bcif
+    return {"category": bcif.BinaryCIFCategory, "block": bcif.BinaryCIFBlock, "file": bcif.BinaryCIFFile}[level]
+
+
+def _cont_elem(level, v):
+    """A live element holding the integer v."""
+    import numpy as np
+    from biotite.structure.io.pdbx import bcif
+    col = bcif.BinaryCIFColumn(np.array([v], dtype=np.int32))
+    if level == "category":
+        return col
+    cat = bcif.BinaryCIFCategory({"c": col})
+    if level == "block":
+        return cat
+    return bcif.BinaryCIFBlock({"k": cat})
+
+
+def _cont_value(level, elem):
+    if level == "category":
+        return int(elem.as_array()[0])
+    if level == "block":
+        return int(elem["c"].as_array()[0])
+    return int(elem["k"]["c"].as_array()[0])
+
+
+def _cont_ser_elem(level, name, v):
+    """The serialised form of an element as it stands in a file; `bad` lacks the part deserialize needs."""
+    if v == "bad":
+        d = {"mask": None} if level == "category" else {"rowCount": 1} if level == "block" else {}
+    else:
+        d = _cont_elem(level, int(v)).serialize()
+    d[_CONT_NAME[level]] = name
+    return d
+
+
+def _cont_show(level, content):
+    import copy
+    sub = {"category": "BinaryCIFColumn", "block": "BinaryCIFCategory", "file": "BinaryCIFBlock"}[level]
+    from biotite.structure.io.pdbx import bcif
+    items = []
+    for d in content:
+        name = d[_CONT_NAME[level]]
+        try:
+            v = str(_cont_value(level, getattr(bcif, sub).deserialize(copy.deepcopy(d))))
+        except Exception:
+            v = "bad"
+        items.append(f"{_s(name)}:{v}")
+    return ",".join(items) if items else "_"
+
+
+def _cont_op(cont, w):
+    """cont = (level, container object)"""
+    try:
+        if w[0] == "cont_init":
+            level = w[1]
+            items = [] if w[2] == "_" else [x.split(":") for x in w[2].split(",")]
+            content = [_cont_ser_elem(level, _unstrs(k)[0], v) for k, v in items]
+            cls = _cont_classes(level)
+            whole = {"category": {"rowCount": 1, "columns": content}, "block": {"categories": content},
+                     "file": {"dataBlocks": content, "encoder": "x", "version": "0.3.0"}}[level]
+            return (level, cls.deserialize(whole)), "ok"
+        level, c = cont
+        if w[0] == "cont_get":
+            return cont, f"ok {_cont_value(level, c[_unstrs(w[1])[0]])}"
+        if w[0] == "cont_set":
+            c[_unstrs(w[1])[0]] = _cont_elem(level, int(w[2]))
+            return cont, "ok"
+        if w[0] == "cont_del":
+            del c[_unstrs(w[1])[0]]
+            return cont, "ok"
+        if w[0] == "cont_has":
+            return cont, f"ok {'true' if _unstrs(w[1])[0] in c else 'false'}"
+        if w[0] == "cont_keys":
+            return cont, "ok " + _strs(list(c.keys()))
+        if w[0] == "cont_ser":
+            return cont, "ok " + _cont_show(level, c.serialize()[_CONT_LIST[level]])
+        if w[0] == "cont_reread":
+            import copy
+            return (level, _cont_classes(level).deserialize(copy.deepcopy(c.serialize()))), "ok"
+        return cont, "bad-op"
+    except Exception as e:  # noqa: BLE001
+        return cont, "ERR:" + type(e).__name__
+
+
+
+def _cont_oracle(case):
+    """Independent reference: a plain dict of integers (None = unreadable element).  Every observation on the real container —
+    values, KeyErrors, key lists, what a re-read of the serialised container holds — must be that of the dict."""
+    level = case["rt"]["level"]
+    ops = [op.split() for op in case["ops"]]
+    items = [] if ops[0][2] == "_" else [x.split(":") for x in ops[0][2].split(",")]
+    names = [_unstrs(k)[0] for k, _ in items]
+    norm = [n.removeprefix("_") for n in names] if level == "block" else names
+    if len(set(norm)) != len(norm):
+        return []          # the same name twice in one file: not a well-formed file, nothing is promised
+    spec = {n: (None if v == "bad" else int(v)) for n, (_, v) in zip(norm, items)}
+    cont = None
+    out = []
+    for i, w in enumerate(ops):
+        cont, line = _cont_op(cont, w)
+        k = _unstrs(w[1])[0] if len(w) > 1 and w[0] != "cont_init" else None
+        want = None
+        if w[0] == "cont_get":
+            want = "ERR:KeyError" if k not in spec else "ERR:DeserializationError" if spec[k] is None else f"ok {spec[k]}"
+        elif w[0] == "cont_set":
+            spec[k] = int(w[2])
+            want = "ok"
+        elif w[0] == "cont_del":
+            want = "ok" if k in spec else "ERR:KeyError"
+            spec.pop(k, None)
+        elif w[0] == "cont_has":
+            want = f"ok {'true' if k in spec else 'false'}"
+        elif w[0] == "cont_keys":
+            want = "ok " + _strs(list(spec))
+        elif w[0] in ("cont_ser", "cont_reread"):
+            if level == "category" and (not spec or any(x is None for x in spec.values())):
+                want = None if line.startswith("ERR:") else "a refusal"      # an empty or unreadable category cannot be written
+            elif w[0] == "cont_ser":
+                pre = "_" if level == "block" else ""
+                want = "ok " + (",".join(f"{_s(pre + n)}:{'bad' if x is None else x}" for n, x in spec.items()) if spec else "_")
+            else:
+                want = "ok"
+        if want is not None and line != want:
+            out.append((f"C05/container/{level}/{w[0][5:]}", f"after {' ; '.join(case['ops'][:i + 1])}: the {level} answers {line!r}, a plain dict {want!r}"))
+            break
+    return out
+
 
 
 def _unstrs(s):
@@ -870,6 +1045,8 @@ def oracle(case):
             v.append(("C05/serialize/parameter-name-roundtrip", f"parameter {n!r} is written as {E._snake_to_camel_case(n)!r} and read back as {back!r}"))
     elif kind == "encser":
         v += _encser_check(rt)
+    elif kind == "cont":
+        v += _cont_oracle(case)
     elif kind == "strtable":
         v += _strtable_check(rt)
     elif kind == "level":
@@ -1251,7 +1428,7 @@ def _file_roundtrip(rt):
 
 
 def nontrivial(case, impl_out):
-    if case["kind"].split("/")[0] in ("file", "column", "interval32", "decimals", "reuse", "u64", "strtable", "level", "params", "rewrite", "names", "encser"):
+    if case["kind"].split("/")[0] in ("file", "column", "interval32", "decimals", "reuse", "u64", "strtable", "level", "params", "rewrite", "names", "encser", "cont"):
         return True
     data = (case.get("rt") or {}).get("data")
     if data is not None and len(set(data)) >= 2:
